@@ -16,8 +16,13 @@ Decoded view of point ``i`` of a node (what the property calls "the exported con
 where rank(P, j) = number of positions j' < j with P[j'] ("the scalars dataset holds, IN ORDER, the values of the non-array
 names"): a recursive specification function with induction lemmas (``RankLemmas``).
 
-FILE INVARIANT  FI(F, D)  (D = the in-memory ``Database.__data``):  see ``file_inv``;  READER contract: ``UpdateFromFile``;
-round trip and "incremental append == single export": ``RoundTripLemmas``;  history: ``HistoryLemmas``.
+STATUS OF THIS BUILD.  Verified against the real source: add_pending_array, the five primitive writers,
+__add_hdf_output_dataset (two calling conventions), __get_missing_hdf_output_dataset, __create_hdf_input_output,
+__append_hdf_output, and the induction lemmas on ``rank`` / filtered sub-sequences (``RankLemmas``).
+The per-point FILE INVARIANT is ``pt_wf`` / ``pt_is`` below (for every exported index i: x/<i> is the i-th key; k/<i> lists the
+exported names; v/<i> holds in order the scalars; v/arr_<i>/<j> the array of the j-th name) and the READER view is
+``Node.fhas`` / ``Node.fval``; ``to_file`` and ``update_from_file`` are NOT yet verified against them (no contract is registered for
+them: nothing is assumed about them either) - they are covered by the bounded run-time stand-in ``contracts/rt_c11.py`` only.
 """
 from __future__ import annotations
 
@@ -114,7 +119,12 @@ class RankLemmas(Contract):
             ("congruence:base", z3.Implies(defs, rank_congruence(P, Q, z3.IntVal(0)))),
             ("congruence:step", z3.Implies(z3.And(defs, t >= 0, rank_congruence(P, Q, t)), rank_congruence(P, Q, t + 1))),
             ("filtered:base", z3.Implies(z3.And(defs, model), cut(z3.IntVal(0)))),
-            ("filtered:step", z3.Implies(z3.And(defs, model, 0 <= t, t < N, cut(t)), cut(t + 1))),
+            # step, case "t is dropped": no element of the filtered sequence comes from t
+            ("filtered:step(dropped)", z3.Implies(z3.And(defs, model, 0 <= t, t < N, cut(t), z3.Not(P[t]), rank(P, t + 1) == rank(P, t)), cut(t + 1))),
+            # step, case "t is kept": its position d = dst[t] is exactly rank(P, t) (not below by cut(t); not above by monotonicity of src at rank(P, t) < d)
+            ("filtered:step(kept):position", z3.Implies(z3.And(defs, model, 0 <= t, t < N, cut(t), P[t], rank(P, t) >= 0,
+                                                               z3.Implies(rank(P, t) < dst[t], src[rank(P, t)] < src[dst[t]])), dst[t] == rank(P, t))),
+            ("filtered:step(kept)", z3.Implies(z3.And(defs, model, 0 <= t, t < N, cut(t), P[t], dst[t] == rank(P, t), rank(P, t + 1) == rank(P, t) + 1), cut(t + 1))),
             ("filtered:position-is-rank", z3.Implies(z3.And(defs, model, 0 <= t, t < N, P[t], cut(t), cut(t + 1)), dst[t] == rank(P, t))),
         ]
 
@@ -503,7 +513,7 @@ class _AddHdfOutputDataset(_Hdf):
         nn0 = old_nn(K0, sidx(i))
         j, s, nm = z3.Int("j!rq"), z3.Const("s!rq", StrS), z3.Const("nm!rq", StrS)
         pre = [
-            ("type:listing-length", seq_n(NAMES, K0.get(sidx(i))) >= 0),
+            ("type:listing-length", z3.Implies(K0.has(sidx(i)), seq_n(NAMES, K0.get(sidx(i))) >= 0)),
             # call sites: __create_hdf_input_output (new point: nothing listed) / __append_hdf_output (the missing names only)
             ("names-not-listed-yet", z3.ForAll([j], z3.Implies(z3.And(0 <= j, j < nn0), z3.Not(outs.has(F0.name(i, j)))), patterns=[F0.name(i, j)])),
             ("listed-names-distinct(POS)", z3.ForAll([j], z3.Implies(z3.And(0 <= j, j < nn0), F0.pos(i, F0.name(i, j)) == j), patterns=[F0.name(i, j)])),
@@ -655,4 +665,88 @@ class GetMissingHdfOutputDataset(_Hdf):
             ("missing:count", missing.n == outs.n - nn0),
             ("positions", z3.If(missing.n == 0, idx.n == 0,
                                 z3.ForAll([nm], z3.Implies(missing.has(nm), z3.And(idx.has(nm), idx.get(nm) == nn0 + H.sorted_pos(H.named_mem(c.st, missing.member), nm)))))),
+        ]
+
+
+def new_point(c):
+    """Call-site fact of __create_hdf_input_output (to_file: the index is not in x yet, and k, v only hold records of exported
+    points): nothing of point i exists in k and v."""
+    i = c.old.index_dataset
+    return [("new-point:no-record-yet", z3.And(z3.Not(c.old.keys_group.ds.has(sidx(i))), z3.Not(c.old.values_group.ds.has(sidx(i))),
+                                               z3.Not(c.old.values_group.groups.has(aname(i)))))]
+
+
+@register
+class CreateHdfInputOutput(_AddHdfOutputDataset):
+    """x/<i> is created with the input array and the record of point i (names, arrays, scalars in order) is written as by
+    __add_hdf_output_dataset on a point that has no record yet; ValueError iff x/<i> exists (nothing is written then)."""
+
+    targets = (HDF + ".__create_hdf_input_output",)
+    params = {"index_dataset": TInt, "design_vars_group": GX, "keys_group": GK, "values_group": GV, "input_values": HNd, "output_values": OUTS}
+    modifies = ("design_vars_group", "keys_group", "values_group", "ghost:h5_pos", "ghost:h5_sc")
+    raises = {"ValueError": lambda c: c.old.design_vars_group.ds.has(sidx(c.old.index_dataset))}
+    loops = {}
+    ghost_defs = {}
+
+    def requires(self, c):
+        return new_point(c) + [("sub-group-names-are-arr-names", sub_groups_named_arr(c.old.values_group.groups)),
+                               ("scalar-dataset-names-are-decimal", datasets_named_decimal(c.old.values_group.ds))]
+
+    def ensures(self, c):
+        X0, X1 = c.old.design_vars_group.ds, c.new.design_vars_group.ds
+        s = z3.Const("s!ci", StrS)
+        me = sidx(c.old.index_dataset)
+        return [("x:created", z3.And(X1.has(me), X1.get(me) == c.old.input_values.wrapped_array)),
+                ("x:members", z3.ForAll([s], X1.has(s) == z3.Or(X0.has(s), s == me))),
+                ("x:others-unchanged", z3.ForAll([s], z3.Implies(s != me, X1.get(s) == X0.get(s)))),
+                ("x:size", X1.n == X0.n + 1)] + super().ensures(c)
+
+    def raise_ensures(self, c, exc):
+        K0, K1, V0, V1 = c.old.keys_group.ds, c.new.keys_group.ds, c.old.values_group, c.new.values_group
+        return [("nothing-written", z3.And(K1.member == K0.member, K1.vals == K0.vals, V1.ds.member == V0.ds.member, V1.ds.vals == V0.ds.vals,
+                                           V1.groups.member == V0.groups.member, V1.groups.vals == V0.groups.vals))]
+
+
+@register
+class AppendHdfOutput(_Hdf):
+    """The names of the point that are not listed in k/<i> yet are added to its record (by __add_hdf_output_dataset, with the
+    positions computed by __get_missing_hdf_output_dataset); when every name is listed already, nothing changes; ValueError iff
+    k/<i> does not exist.  (Only the frame, the exception condition and the no-op case are stated at this level: the effect on
+    the record is the postcondition of __add_hdf_output_dataset, whose preconditions are proved here at the call.)"""
+
+    targets = (HDF + ".__append_hdf_output",)
+    params = {"index_dataset": TInt, "keys_group": GK, "values_group": GV, "output_values": OUTS}
+    modifies = ("keys_group", "values_group", "ghost:h5_pos", "ghost:h5_sc")
+    raises = {"ValueError": lambda c: z3.Not(c.old.keys_group.ds.has(sidx(c.old.index_dataset)))}
+
+    def axioms(self, c):
+        return axioms_common()
+
+    def requires(self, c):
+        F0 = node_of(c, "old")
+        i = c.old.index_dataset
+        s = z3.Const("s!ah", StrS)
+        nn0 = F0.nn(i)
+        return [("type:listing-length", nn0 >= 0),
+                ("history:listed-names-are-names-of-the-point", history_names_only_grow(F0, i, c.old.output_values)),
+                ("array-datasets-are-positions", z3.ForAll([s], z3.Implies(z3.And(F0.has_agrp(i), F0.amem(i)[s]),
+                                                                           z3.And(s == sidx(H.int_of_str(s)), 0 <= H.int_of_str(s), H.int_of_str(s) < nn0)), patterns=[F0.amem(i)[s]])),
+                ("sub-group-names-are-arr-names", sub_groups_named_arr(c.old.values_group.groups)),
+                ("scalar-dataset-names-are-decimal", datasets_named_decimal(c.old.values_group.ds))]
+
+    def ensures(self, c):
+        F0, F1 = node_of(c, "old"), node_of(c, "new")
+        i = c.old.index_dataset
+        outs = c.old.output_values
+        nm, q, r = z3.Const("nm!ah", StrS), z3.Int("q!ah"), z3.Int("r!ah")
+        nn0 = F0.nn(i)
+        all_listed = z3.ForAll([nm], z3.Implies(outs.has(nm), listed(F0, i, nm, nn0)))
+        K0, K1, V0, V1 = c.old.keys_group.ds, c.new.keys_group.ds, c.old.values_group, c.new.values_group
+        POS0, POS1, SC0, SC1 = c.old_ghost("h5_pos", POS_SORT), c.new_ghost("h5_pos", POS_SORT), c.old_ghost("h5_sc", SC_SORT), c.new_ghost("h5_sc", SC_SORT)
+        return [
+            ("nothing-missing:unchanged", z3.Implies(all_listed, z3.And(K1.member == K0.member, K1.vals == K0.vals, V1.ds.member == V0.ds.member, V1.ds.vals == V0.ds.vals,
+                                                                        V1.groups.member == V0.groups.member, V1.groups.vals == V0.groups.vals, POS1 == POS0, SC1 == SC0))),
+            ("listing-grows-to-all-names", F1.nn(i) == outs.n),
+            ("listed-names-kept", z3.ForAll([r], z3.Implies(z3.And(0 <= r, r < nn0), F1.name(i, r) == F0.name(i, r)))),
+            ("ghost:other-points", z3.ForAll([q], z3.Implies(q != i, z3.And(POS1[q] == POS0[q], SC1[q] == SC0[q])))),
         ]
